@@ -729,7 +729,10 @@ pub fn run(opts: &Opts) -> i32 {
             }
         }
         let _ = max_len;
-        for inp in &inputs {
+        for (ii, inp) in inputs.iter().enumerate() {
+            if !pool::inner_keep(ii) {
+                continue;
+            }
             for which in [Which::V3, Which::V5] {
                 // whole and byte-at-a-time, no sentinel (prefix space)
                 for cuts in [vec![], (1..inp.len()).collect::<Vec<_>>()] {
@@ -813,6 +816,9 @@ pub fn run(opts: &Opts) -> i32 {
         for max in [1u32, 2, 10, 127, 128, 1000, 16383, 16384, 100_000] {
             for rl in [max.saturating_sub(1), max, max + 1, max + 2, max * 2 + 5, 268_435_455] {
                 for first in [0x10u8, 0x30, 0x32, 0x40, 0x82, 0xC0, 0xE0] {
+                    if !pool::inner_keep((max as usize).wrapping_mul(31) + rl as usize + first as usize) {
+                        continue;
+                    }
                     let mut hdr = vec![first];
                     hdr.extend_from_slice(&refcodec::encode_varint(rl));
                     rep.eval();
